@@ -60,11 +60,11 @@ TAGS = {
 CORR = (1, 2, 3, 4, 5, 6, 7, 8, 9, 10)
 # oracle tag -> (correspondence tag that must be absent for the model to explain it,
 #                [(guard tag that must be present = guard conjunct false, finding id), ...])
-DROPDV = (205, 'C07-CLEANUP-DROPS-DV')
-# (C07-DECL-STALE-CAPTURE, C07-CLEANUP-ALIAS-CHAIN, C07-OBS-EXPR-FIRST-ASSIGNMENT and C07-FIXED-THETAS-REMOVES-OMEGAS are
-#  fixed in /repo: nothing excuses tags 11, 12, 14, 15, 21-24 any more, a recurrence is a VIOLATION)
+# (C07-DECL-STALE-CAPTURE, C07-CLEANUP-ALIAS-CHAIN, C07-OBS-EXPR-FIRST-ASSIGNMENT, C07-FIXED-THETAS-REMOVES-OMEGAS and
+#  C07-CLEANUP-DROPS-DV are fixed in /repo: nothing excuses an oracle tag of the generated stream any more, a
+#  recurrence is a VIOLATION)
 ORACLE = {
-    11: (1, []), 12: (2, []), 13: (2, [DROPDV]), 14: (1, []), 15: (2, []),
+    11: (1, []), 12: (2, []), 13: (2, []), 14: (1, []), 15: (2, []),
     16: (3, []), 17: (3, []), 18: (1, []), 19: (5, []), 20: (5, []),
     21: (7, []), 22: (8, []), 23: (9, []), 24: (2, []),
 }
@@ -1019,7 +1019,7 @@ def run(ctx):
         'guard_no_stale_capture_false': sum(1 for v in verdicts if 201 in v),
         'guard_rename_not_injective': sum(1 for v in verdicts for t in v if t == 203),
         'guard_inline_false': sum(1 for v in verdicts if 204 in v),
-        'dv_is_alias': sum(1 for v in verdicts if 205 in v),
+        'dv_is_alias': sum(1 for s in kept if re.fullmatch(r'[A-Za-z_]\w*', [r for l, r in s['stmts'] if l == 'Y'][-1])),
         'dv_assigned_twice': sum(1 for s in kept if sum(1 for l, _ in s['stmts'] if l == 'Y') > 1),
         'alias_chains': sum(1 for s in kept if _has_alias_chain(s)),
         'shadowing_programs': sum(1 for v in verdicts if 208 in v),
